@@ -43,11 +43,7 @@ open_("C03", "D36", "C03/unsound-note@src/c.rs:11", ["C03/unsound-note@src/c.rs:
       "history (recorded script witnesses/d36_c03_1_230.json): S2 inserts 2 lines into src/c.rs (and other edits); a commit of another file only turns them into INITIAL-only pending claims; `git stash push` followed by `git stash clear` discards the work; a person types 3 lines at the same position; commit => the person's lines src/c.rs:11-12 are committed as S2, and the note lists a session hash without a prompt record",
       "recorded:witnesses/d36_c03_1_230.json", ["stash_discard_with_initial_pending"],
       cells=["initial|stash-*|person*", "initial-staged|stash-*|person*"], cell_kinds=["C03/unsound-note", "C03/unsound-blame", "C05/hash-without-prompt"])
-open_("C03", "D55", "C03/unsound-note@f.txt:1", ["C03/unsound-blame@f.txt:1"],
-      "history: S2's line at the top of f.txt is pending (a commit of another file left it uncommitted, so only INITIAL holds it, by line number); `git restore -- f.txt` discards it; a person, reported by an IDE-style checkpoint, types three lines at the top; commit => the person's first line is committed as S2's. `git restore` (worktree / --staged --worktree / --source forms, `restore .`) is not hooked at all, and `git checkout f.txt` / `git checkout .` / `git checkout HEAD f.txt` without `--` are not recognised as path checkouts, so the stale INITIAL survives; the repair needs a new command hook and pathspec parsing",
-      "c03.restore_discards_pending_lines_then_person_types_there", ["restore_with_initial_pending"],
-      cells=["initial|restore-*|*", "initial-staged|restore-*|*", "initial|checkout-f|*", "initial|checkout-dot|*", "initial|checkout-head-f|*", "initial-staged|checkout-head-f|*"],
-      cell_kinds=["C03/unsound-note", "C03/unsound-blame"])
+fixed("C03", "D55", "^fix: git restore and path checkouts without", "S2's line at the top of f.txt was pending (a commit of another file left it uncommitted, so only INITIAL held it, by line number); `git restore -- f.txt` (likewise `git restore .`, `--staged --worktree`, `--source HEAD`, and `git checkout f.txt` / `git checkout .` / `git checkout HEAD f.txt` without `--`) discarded it; a person, reported by an IDE-style checkpoint, typed three lines at the top; commit => the person's first line was committed as S2's: `git restore` was not hooked at all and path checkouts were only recognised after `--`, so the stale INITIAL survived (39 cells of the C03 discard table)", "c03.restore_discards_pending_lines_then_person_types_there")
 open_("C03", "D56", "C05/hash-without-prompt", [],
       "history: S1's three lines in f.txt are pending (INITIAL) after a commit of `-dash.txt` only, whose edit a person reported by a checkpoint; `git add -A; git reset -q -- -dash.txt`; the person edits `-dash.txt`; commit => the note lists S1's hash for f.txt without a prompt record (for a pathspec whose name starts with a dash the pathspec reset archives HEAD's working log, INITIAL prompts included, and rebuilds it from checkpoints only)",
       "c03.reset_path_with_dash_name_loses_prompt_record", ["reset_path_dash_name"])
